@@ -117,7 +117,7 @@ class Session(object):
     def restart(self):
         """fresh interpreter state on the same store lineage (memory stores do not survive a real restart)"""
         self.real.reset_process_state()
-        if self.store_kind in ("local", "local_lru"):
+        if self.store_kind in ("local", "local_lru", "dbfs"):
             self.real.set_store(self.store_kind, self.internal_dir, self.data_dir)
         self.real.load_world(self.dir, self.modname, self.extmod)
 
